@@ -168,8 +168,8 @@ EXTRA = {
  "C07": "lost-write analysis of range copies (trie minimisation); phase coverage of terminal-transition follow sets; exhaustion of collecting loops; who-may-call rule for Lexer.Next; propagation of unresolved trie nodes; loop-carried scratch copy of deep lookahead; scan-termination sibling check of lookahead rows",
  "C08": "decision-table extraction of pickLookahead (120 polarity sequences) and of ruleAction's planner branch; memo-key agreement; per-item re-initialisation of the negation flag in generateTables",
  "C09": "cursor-minus-constant clause on the size flow of Tables.Scan (rune mode advances by a variable width); scan-mode agreement of Tables.ScanBytes with the parameter the patterns were parsed with",
- "C10": "finite-state exploration of in-place range filters (len(out)-i); call-order of class assembly; Offset/Column lock-step; field coverage of rebuilt CharsetOptions",
- "C11": "reserved-token constant agreement of canInlineRules; stale-offset check of rewind; reader/writer agreement of the compressed rune map; checkpoint reset on every edge into the scan loop; declaration-implies-maintenance formulas for line/lineOffset in the lexer template; end-of-input cycle check of the generator; single-line token comments; decision table of rune folding; lost-write analysis of range copies in the lexer compiler",
+ "C10": "finite-state exploration of in-place range filters (len(out)-i); call-order of class assembly; Offset/Column lock-step; field coverage of rebuilt CharsetOptions; companion-table agreement of case folding for named Unicode classes",
+ "C11": "reserved-token constant agreement of canInlineRules; stale-offset check of rewind; reader/writer agreement of the compressed rune map; checkpoint reset on every edge into the scan loop; declaration-implies-maintenance formulas for line/lineOffset in the lexer template; end-of-input cycle check of the generator; single-line token comments; decision table of rune folding; lost-write analysis of range copies in the lexer compiler; companion-table agreement of case folding for named Unicode classes",
  "C12": "cursor step discipline; reader/writer agreement of the compressed rune map; checkpoint reset; declaration-implies-maintenance formulas for line/lineOffset; end-of-input cycle check of the generator",
  "C13": "terminal-boundary comparison audit; separator placement under the recursion flag; path guard of dropped Empty children; alias wrapping of named set slots; once-only renumbering of shared token-set nodes",
  "C14": "scratch bit-set reset scopes; name-based provenance of Arg.TakeFrom; path guard of dropped Empty children; terminal-boundary comparison audit (48 sites); wrapper order of convertRules; escape analysis through callees that retain slices; renumbering coverage",
